@@ -383,3 +383,19 @@ func Test33StrayControl(t *testing.T) {
 	}
 	wantOut(t, one("{{block b()}}[{{yield content}}]{{content}}D{{end}}{{try}}{{nope}}{{catch e}}C{{end}}{{if false}}a{{else}}E{{end}}", nil, nil), "[D]CE")
 }
+
+func Test34CacheNoEmptyExt(t *testing.T) {
+	inner := jet.NewInMemLoader()
+	inner.Set("/p.jet", "v1")
+	l := &recLoader{Loader: inner}
+	s := jet.NewSet(l, jet.WithTemplateNameExtensions([]string{".jet"}))
+	t1, err := s.GetTemplate("/p")
+	if err != nil {
+		t.Fatal(err)
+	}
+	n := len(l.paths)
+	t2, _ := s.GetTemplate("/p")
+	if t1 != t2 || len(l.paths) != n {
+		t.Errorf("second lookup not served from cache: same=%v loader calls %d -> %d", t1 == t2, n, len(l.paths))
+	}
+}
